@@ -182,3 +182,27 @@ def run_recorded(case):
         if (c["kind"], c["type"], c["value"]) == (case["kind"], case["type"], case["value"]):
             return c["failure"]
     return None
+
+
+def decode_before_cast_witness():
+    """Known finding C04-decode-before-cast: CastUnmarshaller decodes text as JSON / a Python literal before casting, so the
+    canonical text of a value that *is itself* a quoted literal, or that reads as another member's value, comes back wrong."""
+    import enum
+    import pathlib
+    import warnings
+    import typelib
+
+    class E(enum.Enum):
+        A = 1
+        B = "1"
+    bad = []
+    with warnings.catch_warnings():
+        warnings.simplefilter("ignore")
+        p = pathlib.PurePosixPath('"a"')
+        r = typelib.unmarshal(pathlib.PurePosixPath, str(p))
+        if r != p:
+            bad.append(f"unmarshal(PurePosixPath, {str(p)!r}) == {r!r}, expected {p!r}")
+        r = typelib.unmarshal(E, typelib.marshal(E.B))
+        if r is not E.B:
+            bad.append(f"unmarshal(E, marshal(E.B)) is {r!r} for class E(Enum): A = 1; B = '1'")
+    return "; ".join(bad) or None
